@@ -430,17 +430,32 @@ func attribute(c caseT, f failure, world int) string {
 			}
 		}
 	}
-	pn, nodes := producers(c.req)
-	for j := range pn {
-		fails, _, _, nilVal := evalRequest(pn[j], request(nodes[j]), world)
-		for _, pf := range fails {
-			if pf.class == f.class {
-				return pn[j] + ":" + withKind(f.class)
+	// descend through nested calls: the failure belongs to the innermost
+	// argument expression that alone fails the same way (or yields the nil
+	// feature that its consumer dereferences)
+	var descend func(req *pb.EvaluateRequestProto, depth int) string
+	descend = func(req *pb.EvaluateRequestProto, depth int) string {
+		pn, nodes := producers(req)
+		for j := range pn {
+			fails, _, _, nilVal := evalRequest(pn[j], request(nodes[j]), world)
+			for _, pf := range fails {
+				if pf.class == f.class {
+					if depth < 4 {
+						if inner := descend(request(nodes[j]), depth+1); inner != "" {
+							return inner
+						}
+					}
+					return pn[j] + ":" + withKind(f.class)
+				}
+			}
+			if nilVal && len(fails) == 0 && strings.Contains(f.msg, "nil pointer dereference") {
+				return pn[j] + ":nil-result-dereferenced"
 			}
 		}
-		if nilVal && len(fails) == 0 && strings.Contains(f.msg, "nil pointer dereference") {
-			return pn[j] + ":nil-result-dereferenced"
-		}
+		return ""
+	}
+	if cl := descend(c.req, 0); cl != "" {
+		return cl
 	}
 	if (c.part == "a-curry" || c.part == "a-arity") && strings.HasPrefix(f.class, "panic@b6/api.") {
 		name = "vm"
